@@ -974,11 +974,6 @@ func (interp *Interpreter) cfg(root *node, sc *scope, importPath, pkgName string
 					if sym, _, ok := sc.lookup(dest.ident); ok {
 						sym.kind = constSym
 					}
-					if childPos(n) == len(n.anc.child)-1 {
-						sc.iota = 0
-					} else {
-						sc.iota++
-					}
 				}
 			}
 
@@ -1891,8 +1886,13 @@ func (interp *Interpreter) cfg(root *node, sc *scope, importPath, pkgName string
 				case sym.kind == constSym && sym.rval.IsValid():
 					n.rval = sym.rval
 					n.kind = basicLit
-				case n.ident == "iota":
-					n.rval = reflect.ValueOf(constant.MakeInt64(int64(sc.iota)))
+				case n.ident == "iota" && sym.kind == constSym:
+					v, ok := iotaValue(n)
+					if !ok {
+						err = n.cfgErrorf("cannot use iota outside constant declaration")
+						break
+					}
+					n.rval = reflect.ValueOf(constant.MakeInt64(int64(v)))
 					n.kind = basicLit
 				case n.ident == nilIdent:
 					n.kind = basicLit
@@ -2899,6 +2899,17 @@ func childPos(n *node) int {
 		}
 	}
 	return -1
+}
+
+// iotaValue returns the value of iota in the expression n: the index of the
+// enclosing constant specification in its constant declaration.
+func iotaValue(n *node) (int, bool) {
+	for ; n.anc != nil; n = n.anc {
+		if n.anc.kind == constDecl {
+			return childPos(n), true
+		}
+	}
+	return 0, false
 }
 
 func (n *node) cfgErrorf(format string, a ...interface{}) *cfgError {
